@@ -12,7 +12,7 @@ STACK_IDS = [s.id for s in pool.STACKS]
 # runs per build: (quick, thorough)
 # bigsweep: runs per build on large fields (2^14 .. 2^23 cells), (build, quick, thorough)
 BIG = {
-    'C05': [('rel-plain', 96, 1500), ('dbg-asan', 16, 300)],
+    'C05': [('rel-plain', 96, 1500), ('dbg-asan', 16, 300), ('rel-nobmi2', 24, 300)],
     'C06': [('rel-plain', 64, 1200), ('dbg-asan', 12, 240)],
     'C07': [('rel-plain', 64, 1200), ('dbg-asan', 12, 240)],
     'C12': [('rel-plain', 48, 800), ('dbg-asan', 12, 200)],
@@ -26,14 +26,14 @@ HIST = {
     'C12': dict(profile='ownership', groups=['core', 'io', 'conv'], compile_groups=('core',), sweep='ownsweep,allocsweep',
                 builds=[('rel-plain', 160000, 3000000), ('dbg-asan', 30000, 500000), ('rel-asan', 30000, 500000)]),
     'C05': dict(profile='conversion', groups=['core', 'io', 'conv'], compile_groups=('conv',), sweep='convsweep,allocsweep',
-                builds=[('rel-plain', 120000, 2500000), ('dbg-asan', 30000, 500000)]),
+                builds=[('rel-plain', 120000, 2500000), ('dbg-asan', 30000, 500000), ('rel-nobmi2', 60000, 1000000)]),
     'C06': dict(profile='roundtrip', groups=['core', 'io', 'conv'], compile_groups=('io',), sweep='rtsweep',
                 builds=[('rel-plain', 120000, 2500000), ('dbg-asan', 30000, 500000)]),
     'C07': dict(profile='portability', groups=['core', 'io', 'conv'], compile_groups=(),
                 builds=[('rel-plain', 120000, 2500000), ('dbg-asan', 30000, 500000)]),
     'C15': dict(profile='ub', groups=['core', 'io', 'conv'], compile_groups=(), cross=True, valgrind=(2000, 20000),
                 builds=[('dbg-asan', 30000, 400000), ('rel-asan', 30000, 400000), ('dbg-plain', 30000, 400000),
-                        ('rel-plain', 30000, 400000)]),
+                        ('rel-plain', 30000, 400000), ('rel-nobmi2', 30000, 400000)]),
 }
 LEVEL = 'exploration'
 
